@@ -167,7 +167,7 @@ func c14Eval(c *c14case, exact bool) (diff string, applicable bool) {
 		if len(d.CreateChangePack().Changes) == nch {
 			return "", false // edit had no effect: program pruned
 		}
-		if d.UndoStackLenForTest() > before {
+		if d.UndoStackLenForTest() > before || before == document.MaxUndoRedoStackDepth {
 			contents = append(contents, normalise(d.Marshal()))
 		} else {
 			// no history entry: this step is not undoable; it becomes part of the base
@@ -179,6 +179,11 @@ func c14Eval(c *c14case, exact bool) (diff string, applicable bool) {
 	}
 	n := len(contents) - 1
 	p := n
+	// the history keeps the last MaxUndoRedoStackDepth steps: older ones cannot be undone
+	floor := 0
+	if n > document.MaxUndoRedoStackDepth {
+		floor = n - document.MaxUndoRedoStackDepth
+	}
 	for wi, w := range c.Word {
 		var err error
 		var perr any
@@ -210,8 +215,8 @@ func c14Eval(c *c14case, exact bool) (diff string, applicable bool) {
 		if got := normalise(d.Marshal()); got != contents[p] {
 			return fmt.Sprintf("after %q (%d of %d steps back): content\n  got  %s\n  want %s", c.Word[:wi+1], n-p, n, got, contents[p]), true
 		}
-		if d.CanUndo() != (p > 0) || d.CanRedo() != (p < n) {
-			return fmt.Sprintf("after %q: CanUndo=%v CanRedo=%v, expected %v %v", c.Word[:wi+1], d.CanUndo(), d.CanRedo(), p > 0, p < n), true
+		if d.CanUndo() != (p > floor) || d.CanRedo() != (p < n) {
+			return fmt.Sprintf("after %q: CanUndo=%v CanRedo=%v, expected %v %v", c.Word[:wi+1], d.CanUndo(), d.CanRedo(), p > floor, p < n), true
 		}
 	}
 	return "", true
@@ -310,6 +315,60 @@ func c14Run(env *Env) *Result {
 		}
 	}
 	run(c14Content, true, "content", maxEdits)
+	// "to any depth": programs around the history's depth limit (50 steps; small
+	// scopes never reach it). For every content kind that can be repeated, and
+	// for the cycle over all of them, L = 49, 50, 51 and 53 steps, then all the
+	// way back and forth again and short words at the top of the stacks.
+	deep := func() {
+		var progs [][]string
+		var cycle []string
+		for _, op := range c14Content {
+			cycle = append(cycle, op)
+		}
+		for _, L := range []int{49, 50, 51, 53} {
+			for _, op := range c14Content {
+				pr := make([]string, L)
+				for i := range pr {
+					pr[i] = op
+				}
+				progs = append(progs, pr)
+			}
+			pr := make([]string, L)
+			for i := range pr {
+				pr[i] = cycle[i%len(cycle)]
+			}
+			progs = append(progs, pr)
+		}
+		for pi, prog := range progs {
+			if pi%env.NShards != env.Shard || env.Expired() {
+				continue
+			}
+			m := len(prog)
+			if m > document.MaxUndoRedoStackDepth {
+				m = document.MaxUndoRedoStackDepth
+			}
+			for _, w := range []string{"UU", "UURR", "UUURU", strings.Repeat("U", m), strings.Repeat("U", m) + strings.Repeat("R", m), strings.Repeat("U", m) + "RRU"} {
+				c := &c14case{Edits: prog, Word: w}
+				raw, _ := json.Marshal(c)
+				env.Current(&Found{Property: "C14", Case: raw})
+				diff, ok := c14Eval(c, true)
+				if !ok {
+					break // the kind cannot be repeated (second use has no effect / no history entry)
+				}
+				res.Evaluations++
+				res.Nontrivial++
+				res.Count("deep_programs", 1)
+				if diff != "" {
+					res.AddFound(Found{Property: "C14", Kind: "undo-content", Sig: "undo-content:content", Detail: fmt.Sprintf("%s\ncase: %s", truncateStr(diff, 1200), truncateStr(string(raw), 300)), Case: raw,
+						Core: fmt.Sprintf("undo-content|deep|%s x%d|%s", prog[0], len(prog), truncateStr(failingPrefix(diff, w), 12))})
+				}
+			}
+		}
+		if env.Shard == 0 {
+			res.Completed = append(res.Completed, "c14/deep/L=49,50,51,53")
+		}
+	}
+	deep()
 	if env.Tier == "thorough" {
 		maxWord = 6
 		run([]string{"o.set1", "o.del1", "a.push", "a.delL", "a.ins0", "t.insM", "t.delF", "t.repM", "tr.insT1", "tr.delP0"}, true, "content4", 4)
